@@ -5,4 +5,4 @@ Require Extraction.
 Require Import ExtrOcamlBasic.
 Extraction "expr_ex.ml"
   ExprModel.parse_model ExprModel.explain_model ExprTree.rose_lines ExprTree.digits_val
-  ExprSpec.print ExprSpec.ref ExprSpec.wfb ExprSpec.follow_okb.
+  ExprSpec.print ExprSpec.ref ExprSpec.wfb ExprSpec.wfxb ExprSpec.follow_okb.
